@@ -59,6 +59,9 @@ type runner struct {
 	leaves [][]byte
 	strict bool // every item hash has 32 bytes: the property's precondition
 	coq    bool
+	raw    bool // some hash is not 32 bytes long: print real bytes (pool) instead of tokens
+	prevW  []int
+	isData map[string]bool
 
 	pool     map[string]int
 	poolList [][]byte
@@ -76,8 +79,8 @@ type runner struct {
 	recovers int
 }
 
-func newRunner(coq bool) *runner {
-	r := &runner{coq: coq, strict: true, pool: map[string]int{}, tblSeen: map[string]bool{},
+func newRunner(coq, raw bool) *runner {
+	r := &runner{coq: coq, raw: raw, isData: map[string]bool{}, strict: true, pool: map[string]int{}, tblSeen: map[string]bool{},
 		dumped: map[string]bool{}, lastW: map[int64][]mta.Witness{}, lastLen: -1}
 	mdb := db.NewMapDB()
 	bk, _ := mdb.GetBucket("")
@@ -122,10 +125,10 @@ func (r *runner) addTbl(pre, dig []byte) {
 	if !r.coq {
 		return
 	}
-	if len(pre) == 64 {
+	if len(pre) == 64 && !r.raw && !r.isData[k] {
 		r.tbl = append(r.tbl, fmt.Sprintf("TB %d %d %d", r.ref(pre[:32]), r.ref(pre[32:]), r.ref(dig)))
 	} else {
-		r.tbl = append(r.tbl, fmt.Sprintf("TD %s %d", hxlib.CoqBytes(pre), r.ref(dig)))
+		r.tbl = append(r.tbl, fmt.Sprintf("TR %s %d", hxlib.CoqBytes(pre), r.ref(dig)))
 	}
 }
 
@@ -172,16 +175,39 @@ func (r *runner) verify(ws []mta.Witness, h []byte) int {
 	return cls
 }
 
-func (r *runner) coqW(ws []mta.Witness) string {
-	items := make([]string, len(ws))
+func (r *runner) elems(ws []mta.Witness) []int {
+	items := make([]int, len(ws))
 	for i, w := range ws {
 		v := 2 * r.ref(w.HashValue)
 		if w.Direction == mta.Right {
 			v++
 		}
-		items[i] = fmt.Sprint(v)
+		items[i] = v
+	}
+	return items
+}
+
+func coqInts(v []int) string {
+	items := make([]string, len(v))
+	for i, x := range v {
+		items[i] = fmt.Sprint(x)
 	}
 	return "[" + strings.Join(items, ";") + "]"
+}
+
+func (r *runner) coqW(ws []mta.Witness) string { return coqInts(r.elems(ws)) }
+
+// qd prints a witness relative to the previous one of the same sweep:
+// fresh ++ skipn s prev
+func (r *runner) qd(ws []mta.Witness, v int) string {
+	cur := r.elems(ws)
+	c := 0
+	for c < len(cur) && c < len(r.prevW) && cur[len(cur)-1-c] == r.prevW[len(r.prevW)-1-c] {
+		c++
+	}
+	s := len(r.prevW) - c
+	r.prevW = cur
+	return fmt.Sprintf("QD %d %s %d", s, coqInts(cur[:len(cur)-c]), v)
 }
 
 func sameW(a, b []mta.Witness) bool {
@@ -203,7 +229,7 @@ func (r *runner) query(idx int64) string {
 	n := int64(len(r.leaves))
 	if p := hxlib.Catch(func() { ws, err = r.a.WitnessFor(idx) }); p != "" {
 		r.fail("WitnessFor(%d) at length %d panics: %s", idx, n, p)
-		return "QErr 9"
+		return "QE 9"
 	}
 	r.queries++
 	if err != nil {
@@ -211,15 +237,15 @@ func (r *runner) query(idx int64) string {
 			r.fail("WitnessFor(%d) at length %d fails: %v", idx, n, err)
 		}
 		if errors.NotFoundError.Equals(err) {
-			return "QErr 1"
+			return "QE 1"
 		}
-		return "QErr 2"
+		return "QE 2"
 	}
 	if idx < 0 || idx >= n {
 		if r.strict {
 			r.fail("WitnessFor(%d) at length %d returns a witness", idx, n)
 		}
-		return fmt.Sprintf("QOk %s 0", r.coqW(ws))
+		return r.qd(ws, 0)
 	}
 	v := r.verify(ws, r.leaves[idx])
 	if r.strict {
@@ -243,7 +269,7 @@ func (r *runner) query(idx int64) string {
 	if n&(n+1) != 0 {
 		r.nontriv = true // some root slot is empty
 	}
-	return fmt.Sprintf("QOk %s %d", r.coqW(ws), v)
+	return r.qd(ws, v)
 }
 
 func (r *runner) step(o opSpec) {
@@ -255,6 +281,7 @@ func (r *runner) step(o opSpec) {
 		var lh []byte
 		p := hxlib.Catch(func() {
 			if o.K == "data" {
+				r.isData[string(b)] = true
 				ws = r.a.AddData(b)
 				d := sha3.Sum256(b)
 				lh = d[:]
@@ -283,11 +310,11 @@ func (r *runner) step(o opSpec) {
 			r.fail("witness returned by Add at length %d does not verify (class %d)", n, v)
 		}
 		if r.coq {
-			it := "IHash"
 			if o.K == "data" {
-				it = "IData"
+				r.ops = append(r.ops, fmt.Sprintf("SAddD %s %s %d", hxlib.CoqBytes(b), r.coqW(ws), v))
+			} else {
+				r.ops = append(r.ops, fmt.Sprintf("SAddH %d %s %d", r.ref(b), r.coqW(ws), v))
 			}
-			r.ops = append(r.ops, fmt.Sprintf("SAdd (%s %s) %s %d", it, hxlib.CoqBytes(b), r.coqW(ws), v))
 		}
 	case "flush":
 		var err error
@@ -333,14 +360,17 @@ func (r *runner) step(o opSpec) {
 		r.a = a2
 		r.recovers++
 		if r.coq {
-			rs := make([]string, len(newRoots))
+			rs := make([]int, len(newRoots))
 			for i := range newRoots {
-				rs[i] = hxlib.CoqOpt(newOcc[i], fmt.Sprint(r.ref(newRoots[i])))
+				if newOcc[i] {
+					rs[i] = r.ref(newRoots[i]) + 1
+				}
 			}
-			r.ops = append(r.ops, fmt.Sprintf("SFlushRecover %s %d", hxlib.CoqList(rs), a2.Len()))
+			r.ops = append(r.ops, fmt.Sprintf("SFlushRecover %s %d", coqInts(rs), a2.Len()))
 		}
 	case "qall":
 		obs := make([]string, 0, n+1)
+		r.prevW = nil
 		for i := int64(0); i <= n; i++ {
 			obs = append(obs, r.query(i))
 		}
@@ -350,36 +380,37 @@ func (r *runner) step(o opSpec) {
 		if o.Idx < 0 {
 			return
 		}
+		r.prevW = nil
 		ob := r.query(o.Idx)
 		r.ops = append(r.ops, fmt.Sprintf("SQuery %d (%s)", o.Idx, ob))
 	case "verify":
 		ws := make([]mta.Witness, len(o.Ws))
-		cw := make([]string, len(o.Ws))
 		for i, w := range o.Ws {
 			h, _ := hex.DecodeString(w.H)
 			ws[i] = mta.Witness{Direction: mta.Left, HashValue: h}
 			if w.R {
 				ws[i].Direction = mta.Right
 			}
-			cw[i] = fmt.Sprintf("(%s,%s)", hxlib.CoqBool(w.R), hxlib.CoqBytes(h))
 		}
 		h, _ := hex.DecodeString(o.B)
 		v := r.verify(ws, h)
 		if v == 9 {
 			r.fail("Verify panics at length %d", n)
 		}
-		r.ops = append(r.ops, fmt.Sprintf("SVerify %s %s %d", hxlib.CoqList(cw), hxlib.CoqBytes(h), v))
+		r.ops = append(r.ops, fmt.Sprintf("SVerify %s %d %d", r.coqW(ws), r.ref(h), v))
 	}
 }
 
 func (r *runner) coqCase() string {
 	var sb strings.Builder
 	sb.WriteString("Case [")
-	for i, b := range r.poolList {
-		if i > 0 {
-			sb.WriteByte(';')
+	if r.raw {
+		for i, b := range r.poolList {
+			if i > 0 {
+				sb.WriteByte(';')
+			}
+			sb.WriteString(hxlib.CoqBytes(b))
 		}
-		sb.WriteString(hxlib.CoqBytes(b))
 	}
 	sb.WriteString("]\n [")
 	sb.WriteString(strings.Join(r.tbl, ";"))
@@ -389,8 +420,23 @@ func (r *runner) coqCase() string {
 	return sb.String()
 }
 
+// isRaw: some hash in the script is not 32 bytes long
+func isRaw(sc scenario) bool {
+	for _, o := range sc.Ops {
+		if (o.K == "hash" || o.K == "verify") && len(o.B) != 64 {
+			return true
+		}
+		for _, w := range o.Ws {
+			if len(w.H) != 64 {
+				return true
+			}
+		}
+	}
+	return false
+}
+
 func runScenario(sc scenario, coq bool) *runner {
-	r := newRunner(coq)
+	r := newRunner(coq, isRaw(sc))
 	for _, o := range sc.Ops {
 		r.step(o)
 		if r.oracle != "" && strings.Contains(r.oracle, "panics") {
@@ -464,7 +510,7 @@ func genRandom(rg *rand.Rand, maxLen int, malformed bool) scenario {
 		sc.Name = "malformed"
 	}
 	// a shadow run to obtain genuine witnesses to alter
-	r := newRunner(false)
+	r := newRunner(false, false)
 	n := 0
 	steps := 5 + rg.Intn(3*maxLen)
 	for s := 0; s < steps; s++ {
@@ -564,7 +610,7 @@ func emit(c *hxlib.Ctx, kind string, sc scenario) {
 	cs := hxlib.Case{Kind: kind, Input: sc, Nontrivial: r.nontriv, OracleErr: r.oracle,
 		Key: fmt.Sprintf("%s|%d|%d", sc.Name, len(sc.Ops), c.Rand.Int63())}
 	if !c.OracleOnly {
-		cs.Coq = "(" + r.coqCase() + ")"
+		cs.Coq = "(" + r.coqCase() + ")%uint63"
 	}
 	c.Emit(cs)
 }
@@ -619,21 +665,36 @@ func gen(c *hxlib.Ctx) {
 	// canary: a genuine 5-item run whose observed verify class is falsified
 	if !c.OracleOnly {
 		r := runScenario(scenario{Ops: append(fixedItems(5), opSpec{K: "qall"})}, true)
-		last := r.ops[len(r.ops)-1]
-		i := strings.LastIndex(last, " 0;QErr 1]")
-		if i < 0 {
-			panic("canary: unexpected shape")
+		last, i := "", -1
+		if len(r.ops) > 0 {
+			last = r.ops[len(r.ops)-1]
+			i = strings.LastIndex(last, " 0;QE 1]")
 		}
-		r.ops[len(r.ops)-1] = last[:i] + " 1;QErr 1]"
-		c.Emit(hxlib.Case{Kind: "canary", Coq: "(" + r.coqCase() + ")", Canary: true})
+		if i >= 0 {
+			r.ops[len(r.ops)-1] = last[:i] + " 1;QE 1]"
+		} else { // the implementation under test behaves differently: any impossible observation will do
+			r.ops = append(r.ops, "SQuery 0 (QE 7)")
+		}
+		c.Emit(hxlib.Case{Kind: "canary", Coq: "(" + r.coqCase() + ")%uint63", Canary: true})
 		r2 := runScenario(scenario{Ops: append(fixedItems(3), opSpec{K: "q", Idx: 1})}, true)
 		// direction bit of the first witness element flipped
-		l2 := r2.ops[len(r2.ops)-1]
-		j := strings.Index(l2, "(QOk [")
+		l2, j := "", -1
+		if len(r2.ops) > 0 {
+			l2 = r2.ops[len(r2.ops)-1]
+			j = strings.Index(l2, "(QD 0 [")
+		}
 		var first int
-		fmt.Sscanf(l2[j+6:], "%d", &first)
-		r2.ops[len(r2.ops)-1] = l2[:j+6] + fmt.Sprint(first^1) + l2[j+6+len(fmt.Sprint(first)):]
-		c.Emit(hxlib.Case{Kind: "canary", Coq: "(" + r2.coqCase() + ")", Canary: true})
+		if j >= 0 {
+			if n, _ := fmt.Sscanf(l2[j+7:], "%d", &first); n != 1 {
+				j = -1
+			}
+		}
+		if j >= 0 {
+			r2.ops[len(r2.ops)-1] = l2[:j+7] + fmt.Sprint(first^1) + l2[j+7+len(fmt.Sprint(first)):]
+		} else {
+			r2.ops = append(r2.ops, "SVerify [] 0 5")
+		}
+		c.Emit(hxlib.Case{Kind: "canary", Coq: "(" + r2.coqCase() + ")%uint63", Canary: true})
 	}
 }
 
@@ -651,9 +712,9 @@ func main() {
 		Rule: "a case is an operation script on one mta.Accumulator over a map database: AddHash/AddData, Flush, Flush+Recover into a fresh object, WitnessFor+Verify for every index (and one past the end), Verify of altered witnesses. " +
 			"mem-sweep and persist-sweep together visit every length 0..300 (thorough: 0..1099) and every index, before and after Flush and Flush+Recover, with appends continuing on the recovered object; random scripts add single queries and altered witnesses; malformed scripts add hashes whose length is not 32 (model/implementation comparison only). " +
 			"Non-trivial: the script queries a witness at a length that is not 2^k-1 (some root slot is empty).",
-		Shard:    3,
-		Preamble: "From Goloop Require Import lib.Bytes Model_Mta.\nFrom GoloopRun Require Import Run_C27.",
-		Gen:    gen,
-		Replay: replay,
+		Shard:    10,
+		Preamble: "From Coq Require Import Uint63.\nFrom GoloopRun Require Import Run_C27.",
+		Gen:      gen,
+		Replay:   replay,
 	})
 }
